@@ -324,6 +324,16 @@ class Ownership:
         if r in self.allowed:
             self.ob('%s@L%d' % (ast.unparse(t)[:40], t.lineno), True, {})
             return
+        keyed = [a.split(':', 1)[1] for a in self.allowed if ':' in a and a.split(':', 1)[0] == r]
+        if keyed:
+            # a parameter that may be written under the listed constant keys only (options['callback'] = ...)
+            ok = isinstance(t, ast.Subscript) and isinstance(t.value, ast.Name) and isinstance(t.slice, ast.Constant) and t.slice.value in keyed \
+                and what == 'item store'
+            self.ob('%s@L%d' % (ast.unparse(t)[:40], t.lineno), ok,
+                    dict(target=ast.unparse(t), kind=what, line=t.lineno, root=r,
+                         reason='the caller\'s `%s` may only be written under the key(s) %s; any other update survives the call '
+                                '(and, for a default-argument dict, every later call)' % (r, keyed)))
+            return
         ok = r is not None and r in obj and (not need_elems or r in elems)
         self.ob('%s@L%d' % (ast.unparse(t)[:40], t.lineno), ok,
                 dict(target=ast.unparse(t), kind=what, line=t.lineno, root=r,
@@ -341,7 +351,7 @@ class Ownership:
                 a = n.func.attr
                 base = n.func.value
                 is_module = isinstance(base, ast.Name) and base.id in ('np', 'sparse', 'nx', 'pd', 'itertools', 'torch', 'math')
-                if a in ('append', 'update', 'sort', 'extend', 'add', 'remove', 'insert', 'pop', 'clear') and not is_module:
+                if a in ('append', 'update', 'sort', 'extend', 'add', 'remove', 'insert', 'pop', 'clear', 'setdefault', 'popitem', 'discard', 'reverse') and not is_module:
                     self.check(base, 'mutating method .%s' % a, False, obj, elems)
                     if a in ('append', 'add', 'extend', 'insert', 'update') and n.args and isinstance(base, ast.Name):
                         if not self.fresh(n.args[-1], obj, elems)[0]:
